@@ -15,6 +15,8 @@ Line protocol for C10.
   pl  <same tokens as st>   the first <pre> events are residual frames on an idle pooled connection
       obs:  reused <0|1> <st observation of the remaining events>
   tm  <tunnel id hex> <node id hex>     Encode/DecodeTargetReadyMessage;  obs: ok <tidhex> <nodehex> | invalid
+  ls  tid <hex> node <hex> br <hex> ty <n> hid <hex> pay <len> <seed> back <len> <seed> co <0|1|2>
+      obs:  fwd <0|1> up <hex> down <hex>          (the real CrossNodeListener.handleConnection)
   fw  me <hex> up <len> <seed> down <len> <seed> cs <k> <size>*k [opt <ct> <cl> <ord>]
       obs:  up <hex> down <hex> done <0|1> cnt <sent|na> <recv|na> closes <n|na>
 
@@ -352,6 +354,42 @@ def parseFwObs : List String → Option FwObs
     if x == "0" || x == "1" then pure ⟨u, d, x == "1", cnt, cl⟩ else none
   | _ => none
 
+structure LsCase where
+  tid : Bytes
+  node : Bytes
+  br : Bytes
+  ty : Nat
+  hid : Bytes
+  pay : Bytes
+  back : Bytes
+
+def parseLs : List String → Option LsCase
+  | ["tid", t, "node", n, "br", b, "ty", ty, "hid", h, "pay", pl, ps, "back", bl, bs, "co", _] => do
+    let t ← bytesOfHex t
+    let n ← bytesOfHex n
+    let b ← bytesOfHex b
+    let ty ← ty.toNat?
+    let h ← bytesOfHex h
+    let pl ← pl.toNat?
+    let ps ← ps.toNat?
+    let bl ← bl.toNat?
+    let bs ← bs.toNat?
+    pure ⟨t, n, b, ty, h, genBytes pl ps, genBytes bl bs⟩
+  | _ => none
+
+/-- The model of the `ls` scenario: the target side's wire through `runListener` (any chunking gives the
+same result, `C10_chunk_indep`/`C10_listener_exact`; 4 KiB chunks here), the answer raw. -/
+def modelLs (c : LsCase) : Bool × Bytes × Bytes :=
+  match writeFrame ⟨tunnelIDFromString c.hid, c.ty, encodeTargetReady c.tid c.node⟩ with
+  | none => (false, [], [])
+  | some w =>
+    match runListener c.br ⟨cutWire [] (w ++ c.pay), .eof⟩ with
+    | some up => (true, up, c.back)
+    | none => (false, [], [])
+
+def lsObsStr (o : Bool × Bytes × Bytes) : String :=
+  s!"fwd {if o.1 then 1 else 0} up {hexOfBytes o.2.1} down {hexOfBytes o.2.2}"
+
 def tmObsStr : Option (Bytes × Bytes) → String
   | some (t, n) => s!"ok {hexOfBytes t} {hexOfBytes n}"
   | none => "invalid"
@@ -362,6 +400,10 @@ def runModel (ts : List String) : String :=
     match bytesOfHex t, bytesOfHex n with
     | some t, some n => tmObsStr (decodeTargetReady (encodeTargetReady t n))
     | _, _ => "bad-case"
+  | "ls" :: rest =>
+    match parseLs rest with
+    | some c => lsObsStr (modelLs c)
+    | none => "bad-case"
   | "pl" :: rest =>
     match parseSt rest with
     | some c =>
@@ -398,6 +440,16 @@ def runModel (ts : List String) : String :=
 /-- The theorem's predicate on an observation; anything unparsable (panic, timeout, …) is `false`. -/
 def runHolds (caseToks obsToks : List String) : String :=
   match caseToks with
+  | "ls" :: rest =>
+    match parseLs rest, obsToks with
+    | some c, ["fwd", f, "up", u, "down", d] =>
+      match bytesOfHex u, bytesOfHex d with
+      | some u, some d =>
+        if f != "0" && f != "1" then "false"
+        else boolStr (holdsLs c.tid c.node c.br c.ty c.hid c.pay c.back (f == "1", u, d))
+      | _, _ => "false"
+    | some _, _ => "false"
+    | none, _ => "bad-case"
   | ["tm", t, n] =>
     match bytesOfHex t, bytesOfHex n with
     | some t, some n =>
